@@ -807,6 +807,9 @@ const INT_TYPES: [(&str, i128, i128); 12] = [
 ];
 
 fn ints(rng: &mut Rng, n: usize, sink: &mut Sink) {
+    // both entry points (`to_lean_string`, `try_to_lean_string`) on the extremes of every integer type and NonZero form
+    let tl = crate::traitsuite::to_lean_string_types(sink);
+    sink.oracle.evaluations += tl;
     let mut d = 0usize;
     let mut emit = |sink: &mut Sink, ty: &str, v: i128, nz: bool| {
         if d % 6 == 0 {
@@ -925,8 +928,9 @@ fn display(rng: &mut Rng, n: usize, sink: &mut Sink) {
 }
 
 fn chars(sink: &mut Sink) {
+    // one value of every type the `to_lean_string` dispatch names, and of their look-alikes
+    let mut n = crate::traitsuite::to_lean_string_types(sink);
     // every char against to_string()
-    let mut n = 0u64;
     for u in 0..=0x10FFFFu32 {
         if let Some(c) = char::from_u32(u) {
             n += 1;
